@@ -1,267 +1,22 @@
+//go:build verif
+
 package c05
 
 import (
-	"errors"
-	"fmt"
-	"strings"
-	"sync"
 	"testing"
-	"time"
 
-	"ergo.services/ergo/gen"
 	"pgregory.net/rapid"
 
 	"verif/harness/kit"
+	"verif/harness/metalab"
 )
 
-var recMeta = kit.NewRecorder("C05", "meta",
-	"a meta-process (mailbox unbounded or 1..3) spawned by an actor; 2-4 agents x 1-3 ops from {send by alias, call by alias, inspect, exit signal to the meta-process, Start() returns (nil or error), stop message, panicking message, parent is killed}; with the controlled scheduler over meta.* yield points or free-running; handlers spin 0-30us; "+
-		"oracle: entry/exit counter over Init/HandleMessage/HandleCall/HandleInspect/Terminate never exceeds 1 (Start is the meta-process's own loop and excluded), Terminate runs at most once and nothing runs after it; "+
-		"non-trivial = a termination cause was issued while >= 1 other op was in flight; distinct by script (+trace)")
-
-const (
-	mSend = iota
-	mCall
-	mInspect
-	mExit
-	mStartReturns
-	mStartFails
-	mStop
-	mBoom
-	mKillParent
-)
-
-var mNames = []string{"send", "call", "inspect", "exit", "start-returns", "start-fails", "stop", "boom", "kill-parent"}
-
-func propMeta(t *rapid.T, scheduled bool) {
-	mbox := rapid.SampledFrom([]int64{0, 0, 1, 3}).Draw(t, "mailbox")
-	spinNs := int64(rapid.IntRange(0, 30).Draw(t, "spin_us")) * 1000
-	na := rapid.IntRange(2, 4).Draw(t, "agents")
-	agents := make([][]int, na)
-	var desc []string
-	causes := 0
-	for i := range agents {
-		n := rapid.IntRange(1, 3).Draw(t, "ops")
-		for j := 0; j < n; j++ {
-			o := rapid.SampledFrom([]int{mSend, mSend, mCall, mInspect, mExit, mStartReturns, mStartFails, mStop, mBoom, mKillParent}).Draw(t, "op")
-			if o >= mExit {
-				causes++
-			}
-			agents[i] = append(agents[i], o)
-			desc = append(desc, fmt.Sprintf("%d:%s", i, mNames[o]))
-		}
-	}
-	var choices []int
-	if scheduled {
-		choices = rapid.SliceOfN(rapid.IntRange(0, 7), 8, 48).Draw(t, "schedule")
-	}
-
-	node, err := kit.StartLocalNode()
-	if err != nil {
-		t.Fatalf("start node: %v", err)
-	}
-	defer node.StopForce()
-	probe := kit.NewProbe()
-	parent, err := node.Spawn(kit.Factory(&kit.ActorConfig{Label: "parent", Probe: probe, Quiet: true}), gen.ProcessOptions{})
-	if err != nil {
-		t.Fatalf("spawn: %v", err)
-	}
-	startErr := make(chan error, 1)
-	cfg := &kit.MetaConfig{Label: "meta", Probe: probe, SpinNs: spinNs}
-	cfg.Stop = make(chan struct{})
-	cfg.StartFn = func(m *kit.Meta) error {
-		select {
-		case <-cfg.Stop:
-			return nil
-		case e := <-startErr:
-			return e
-		}
-	}
-	var alias gen.Alias
-	var serr error
-	if e := kit.InProc(node, parent, func(a *kit.Actor) {
-		alias, serr = a.SpawnMeta(kit.NewMeta(cfg), gen.MetaOptions{MailboxSize: mbox})
-	}); e != nil || serr != nil {
-		t.Fatalf("spawn meta: %v %v", e, serr)
-	}
-	defer cfg.StopStart()
-	// wait until the meta process is up (state sleep)
-	kit.WaitUntil(time.Second, func() bool {
-		mi, err := node.MetaInfo(alias)
-		return err == nil && mi.State == gen.MetaStateSleep
-	})
-	helper, _ := node.Spawn(kit.Factory(&kit.ActorConfig{Label: "helper", Probe: probe, Quiet: true}), gen.ProcessOptions{})
-	// an observer monitoring the meta-process's alias: it must learn the reason, once
-	var omu sync.Mutex
-	var downs []error
-	observer, _ := node.Spawn(kit.Factory(&kit.ActorConfig{Label: "observer", Probe: probe, Quiet: true,
-		OnMessage: func(a *kit.Actor, from gen.PID, msg any) (bool, error) {
-			if d, ok := msg.(gen.MessageDownAlias); ok && d.Alias == alias {
-				omu.Lock()
-				downs = append(downs, d.Reason)
-				omu.Unlock()
-			}
-			return true, nil
-		}}), gen.ProcessOptions{})
-	var merr error
-	kit.InProc(node, observer, func(a *kit.Actor) { merr = a.MonitorAlias(alias) })
-	if merr != nil {
-		t.Fatalf("monitor meta alias: %v", merr)
-	}
-
-	var s *kit.Sched
-	if scheduled {
-		s = kit.NewSched(func(name string, id uint64) bool {
-			return id == alias.ID[0] && strings.HasPrefix(name, "meta.")
-		})
-		defer s.Close()
-	}
-	var wg sync.WaitGroup
-	for i, ops := range agents {
-		wg.Add(1)
-		go func(i int, ops []int) {
-			defer wg.Done()
-			for j, o := range ops {
-				payload := kit.Numbered{ID: i*100 + j}
-				switch o {
-				case mSend:
-					node.Send(alias, payload)
-				case mCall:
-					c, err := node.Spawn(kit.Factory(&kit.ActorConfig{Label: "caller", Probe: probe, Quiet: true}), gen.ProcessOptions{})
-					if err == nil {
-						node.Send(c, kit.Do{F: func(a *kit.Actor) { a.CallWithTimeout(alias, payload, 1) }})
-					}
-				case mInspect:
-					c, err := node.Spawn(kit.Factory(&kit.ActorConfig{Label: "inspector", Probe: probe, Quiet: true}), gen.ProcessOptions{})
-					if err == nil {
-						node.Send(c, kit.Do{F: func(a *kit.Actor) { a.InspectMeta(alias) }})
-					}
-				case mExit:
-					node.Send(helper, kit.Do{F: func(a *kit.Actor) { a.SendExitMeta(alias, errors.New("exit-meta")) }})
-				case mStartReturns:
-					cfg.StopStart()
-				case mStartFails:
-					select {
-					case startErr <- errors.New("start-failed"):
-					default:
-					}
-				case mStop:
-					node.Send(alias, kit.Stop{Reason: gen.TerminateReasonNormal})
-				case mBoom:
-					node.Send(alias, kit.Boom{})
-				case mKillParent:
-					node.Kill(parent)
-				}
-			}
-		}(i, ops)
-	}
-	doneCh := make(chan struct{})
-	go func() { wg.Wait(); close(doneCh) }()
-	var trace []string
-	if s != nil {
-		s.Run(choices, func() bool {
-			select {
-			case <-doneCh:
-				return true
-			default:
-				return false
-			}
-		}, 3*time.Second)
-		s.Close()
-		trace = s.Trace
-	}
-	<-doneCh
-	time.Sleep(3 * time.Millisecond)
-	kit.WaitUntil(time.Second, func() bool {
-		mi, err := node.MetaInfo(alias)
-		if err != nil {
-			return true
-		}
-		return mi.State == gen.MetaStateSleep && mi.MailboxQueues.Main == 0 && mi.MailboxQueues.System == 0
-	})
-	time.Sleep(2 * time.Millisecond)
-
-	if n, d := probe.Overlaps(); n > 0 {
-		t.Fatalf("%d overlapping callback executions: %v\nscript: %v\ntrace: %v", n, d, desc, trace)
-	}
-	evs := probe.EventsOf("meta")
-	nterm := 0
-	for i, e := range evs {
-		if e.Kind == "terminate" {
-			nterm++
-			if i != len(evs)-1 {
-				t.Fatalf("meta-process callback %q ran after Terminate; script %v trace %v", evs[len(evs)-1].Kind, desc, trace)
-			}
-		}
-	}
-	if nterm > 1 {
-		t.Fatalf("meta-process Terminate ran %d times; script %v", nterm, desc)
-	}
-	// the reason (C05): one of the causes that were issued, never nil
-	admissible := func(r error) bool {
-		if r == nil {
-			return false
-		}
-		for _, ops := range agents {
-			for _, o := range ops {
-				switch o {
-				case mExit:
-					if r.Error() == "exit-meta" {
-						return true
-					}
-				case mStartReturns, mStop:
-					if r == gen.TerminateReasonNormal {
-						return true
-					}
-				case mStartFails:
-					if r.Error() == "start-failed" {
-						return true
-					}
-				case mBoom:
-					if r == gen.TerminateReasonPanic {
-						return true
-					}
-				case mKillParent:
-					if r == gen.TerminateReasonKill || errors.Is(r, gen.TerminateReasonKill) {
-						return true
-					}
-				}
-			}
-		}
-		return false
-	}
-	if nterm == 1 {
-		reason := evs[len(evs)-1].Reason
-		if !admissible(reason) {
-			t.Fatalf("meta-process Terminate got reason %v, which is none of the causes issued; script %v trace %v", reason, desc, trace)
-		}
-		kit.WaitUntil(2*time.Second, func() bool { omu.Lock(); defer omu.Unlock(); return len(downs) >= 1 })
-		time.Sleep(time.Millisecond)
-		omu.Lock()
-		got := append([]error(nil), downs...)
-		omu.Unlock()
-		if len(got) != 1 {
-			t.Fatalf("the process monitoring the meta-process's alias received %d down notifications %v (want 1); script %v", len(got), got, desc)
-		}
-		if !admissible(got[0]) {
-			t.Fatalf("the process monitoring the meta-process's alias was told reason %v, which is none of the causes issued; script %v trace %v", got[0], desc, trace)
-		}
-	} else {
-		omu.Lock()
-		n := len(downs)
-		omu.Unlock()
-		if n != 0 {
-			t.Fatalf("the observer was notified %d times although the meta-process did not terminate; script %v", n, desc)
-		}
-	}
-	key := fmt.Sprintf("mbox=%d sched=%v %v trace=%s", mbox, scheduled, desc, strings.Join(trace, ","))
-	recMeta.Case(causes >= 1 && len(desc) >= 2, key, fmt.Sprintf("sched=%v", scheduled), fmt.Sprintf("terminated=%d", nterm))
-}
+var recMeta = kit.NewRecorder("C05", "meta", metalab.Rule)
 
 func TestMetaScheduled(t *testing.T) {
-	rapid.Check(t, func(t *rapid.T) { propMeta(t, true) })
+	rapid.Check(t, func(t *rapid.T) { metalab.Prop(t, true, recMeta) })
 }
 
 func TestMetaStress(t *testing.T) {
-	rapid.Check(t, func(t *rapid.T) { propMeta(t, false) })
+	rapid.Check(t, func(t *rapid.T) { metalab.Prop(t, false, recMeta) })
 }
